@@ -26,7 +26,8 @@ fn id_sets(doc: &Doc) -> (String, BTreeSet<String>) {
 fn run_case(seed: u64, index: u64, md: &mut Model, rep: &mut Report) {
     let mut r = Rng::for_case(seed, 107, index);
     let gc = r.chance(1, 3);
-    let leader = Replica::new(1, DocCfg { gc, ..DocCfg::default() });
+    let cleanup = r.chance(1, 2);   // the leader cleans up redundant formatting after remote transactions; the followers never do
+    let leader = Replica::new(1, DocCfg { gc, cleanup, ..DocCfg::default() });
     let others = [Replica::new(2, DocCfg::default()), Replica::new(3, DocCfg { gc: r.chance(1, 2), ..DocCfg::default() })];
     let f1 = Replica::new(11, DocCfg { gc: r.chance(1, 2), ..DocCfg::default() });
     let f2 = Replica::new(12, DocCfg { gc: r.chance(1, 2), ..DocCfg::default() });
@@ -69,6 +70,15 @@ fn run_case(seed: u64, index: u64, md: &mut Model, rep: &mut Report) {
                 what = format!("O{} txn {{{}}} (leader idle)", o, sc.join("; "));
                 script.push(what); continue;
             }
+            6..=8 if r.chance(1, 3) => {
+                // the difference between another replica's state (possibly garbage-collected: GC ranges travel here) and the leader's
+                let o = r.below(2) as usize;
+                let sv = leader.doc.transact().state_vector();
+                let u = others[o].doc.transact().encode_state_as_update_v1(&sv);
+                let v = leader.apply_v1(&u);
+                what = format!("L apply state diff of O{} ({} bytes){}", o, u.len(), if v.is_err() { " ERR" } else { "" });
+                interesting = true;
+            }
             6..=8 => {
                 if inbox.is_empty() { continue; }
                 let i = r.below(inbox.len() as u64) as usize;
@@ -104,6 +114,16 @@ fn run_case(seed: u64, index: u64, md: &mut Model, rep: &mut Report) {
         if pl != p1 { failures.push(json!({"class": "v1-follower-differs", "step": step, "what": what, "leader": pl, "follower": p1,
             "leader_pending": leader.doc.transact().has_missing_updates(), "follower_pending": f1.doc.transact().has_missing_updates(), "events": e1.iter().map(|x| hex(x)).collect::<Vec<_>>()})); }
         if pl != p2 { failures.push(json!({"class": "v2-follower-differs", "step": step, "what": what, "leader": pl, "follower": p2})); }
+        // equal means equal state, not only equal content: integrated ids, deleted ids, state vector
+        if failures.is_empty() {
+            let (li, ld) = id_sets(&leader.doc); let lsv = leader.doc.transact().state_vector();
+            for (name, f) in [("v1", &f1), ("v2", &f2)] {
+                let (fi, fd) = id_sets(&f.doc);
+                if fi != li { failures.push(json!({"class": format!("{name}-follower-integrated-ids-differ"), "step": step, "what": what, "leader": li, "follower": fi})); }
+                else if fd != ld { failures.push(json!({"class": format!("{name}-follower-deleted-ids-differ"), "step": step, "what": what, "leader_only": ld.difference(&fd).take(8).collect::<Vec<_>>(), "follower_only": fd.difference(&ld).take(8).collect::<Vec<_>>()})); }
+                else if f.doc.transact().state_vector() != lsv { failures.push(json!({"class": format!("{name}-follower-state-vector-differs"), "step": step, "what": what})); }
+            }
+        }
         // model follower: what the v1 events carry, decoded by the Coq decoder, must reproduce the leader's integrated set
         if !gc {
             let vs = store_dump(&leader.doc);
@@ -121,13 +141,13 @@ fn run_case(seed: u64, index: u64, md: &mut Model, rep: &mut Report) {
     }
     rep.evaluations += 1;
     if interesting { rep.nontrivial_case(&format!("c07:{}", index)); }
-    for mut f in failures { f["property"] = json!("C07"); f["case"] = json!({"stream": 107, "index": index, "seed": seed}); f["script"] = json!(script); f["leader_gc"] = json!(gc); rep.fail(f); }
+    for mut f in failures { f["property"] = json!("C07"); f["case"] = json!({"stream": 107, "index": index, "seed": seed}); f["script"] = json!(script); f["leader_gc"] = json!(gc); f["leader_cleanup"] = json!(cleanup); rep.fail(f); }
     for mut d in disagreements { d["case"] = json!({"stream": 107, "index": index, "seed": seed}); rep.disagree(d); }
     if rep.samples.len() < 3 && interesting { rep.sample(json!({"case": index, "leader_gc": gc, "script": script})); }
 }
 
 pub fn run(tier: &str, seed: u64, workers: usize) -> Report {
-    let n = if tier == "thorough" { 8000 } else { 500 };
+    let n = if tier == "thorough" { 80000 } else { 12000 };
     let mut total = parallel(workers, |w, nw| {
         let mut rep = Report::default();
         for ci in 0..n {
